@@ -4,12 +4,43 @@ from . import agentsim as S
 PROP  = 'C08'
 KNOBS = {'max_tasks': 10, 'cancel_prob': 1.0, 'fail_share': 0.15,
          'racy_share': 0.2, 'grace_share': 0.3, 'preempt': 0.01}
-gen, run = S.make_check(PROP, ['full', 'full', 'sched'], KNOBS,
-                        lambda sc, res: bool(sc['ops']))
-shrink = S.shrink
+_gen, _run = S.make_check(PROP, ['full', 'full', 'sched'], KNOBS,
+                          lambda sc, res: bool(sc['ops']))
+
+# focus e2e: the request is issued by the application (TaskManager.
+# cancel_tasks) and has to travel through the proxy to the pilot
+from . import e2esim as E                                          # noqa
+E2E_KNOBS = {'max_tasks': 6, 'fail_share': 0.1, 'spawn_fail_share': 0.0,
+             'timeout_share': 0.0, 'sd_share': 0.0, 'cancel_prob': 1.0,
+             'work_exc_prob': 0.0, 'io_fault_prob': 0.0, 'rich_sds': False,
+             'long_cancel': True, 'real_pilot_prob': 0.0, 'ghost_prob': 0.0}
+_egen, _erun = E.make_check(PROP, E2E_KNOBS, lambda sc, res: bool(sc['ops']))
+
+
+def gen(rng, tier):
+    if rng.random() < 0.15:
+        sc = _egen(rng, tier)
+        sc['focus'] = 'e2e'
+        return sc
+    return _gen(rng, tier)
+
+
+def run(seed, sc, trace=None, tier='quick'):
+    if sc.get('focus') == 'e2e':
+        return _erun(seed, sc, trace, tier)
+    return _run(seed, sc, trace, tier)
+
+
+def shrink(sc):
+    if sc.get('focus') == 'e2e':
+        return [dict(c, focus='e2e') for c in E.shrink(sc)]
+    return S.shrink(sc)
 SEEDS  = {'quick': 1200, 'thorough': 40000}
 BUDGET = {'quick': 240, 'thorough': 3000}
 INFO   = dict(S.INFO)
+INFO['real'] = INFO['real'] + ['focus e2e (15% of the runs): TaskManager.'
+                               'cancel_tasks -> crosswire forwarders -> '
+                               'proxy -> pilot side components (world E2E)']
 INFO['rule'] = ('full agent / scheduler focus with 1-3 cancel requests naming '
                 'seeded subsets at seeded instants; bystander outcomes are a '
                 'function of the workload; non-trivial = >=1 cancel request; '
